@@ -12,7 +12,7 @@ import c18_threads
 
 PROPERTY = 'C18'
 MANIFEST = {
- 'level_text': 'Lean 4 theorems, kernel-checked, in two layers. (0) CPython heapq as used by the scheduler: heappush and heapify establish/keep the heap invariant, heappop returns an entry of minimal due time and leaves a heap that with it is a permutation of the old one, hence the choice of the heap is always a pick the scheduler model accepts. (1) A model of supybot.schedule.Schedule, for every sequence of addEvent/addPeriodicEvent/removeEvent/rescheduleEvent/run/reset calls and clock advances, every program of event functions that themselves add, remove, reschedule, add periodic events or raise while running, and every way the heap resolves ties: the name invariant (heap names = keys of events, no name twice) holds in every reachable state and therefore run() never raises; registrations = fired + removed + discarded + still scheduled as multisets with pairwise distinct registration ids (each event fires at most once, a removed event never fires, everything that fired was registered); nothing fires before its due time has passed, each iteration fires an entry of minimal due time, and when run() returns nothing due is left; a fired event carries the function and arguments of its registration, also after rescheduleEvent (repaired: it dropped them), which moves exactly that entry; a raising function ends only its own body; a periodic wrapper with occurrences left re-registers itself whether or not its function raised; threads: the placement of the lock is extracted and for every interleaving of critical sections (addEvent, removeEvent, iterations of run(), reset, by any threads) the invariant holds at every lock release, run() never raises and never fires early, registrations stay exactly-once (after three repairs of the lock placement). The driver loop: drivers.run() removes a driver whose run() raises; over every history of API calls and rounds of drivers.run() the Schedule driver is never removed and each round leaves nothing due. (2) A model of the Scheduler plugin on top (event table with its str(id)/name keys and the int-vs-str naming discipline, add/remind/remove/repeat/list, _flush and the pickle, die — repaired: it now takes the saved events out of the schedule —, _restoreEvents with kept ids and the already-scheduled test, load/unload/reload/restart, other plugins scheduling, run): an invariant of every reachable state and the whole-history law added = ran + removed + pending, each added never removed one-shot command runs exactly once (every scheduled closure belongs to the live instance and has its table entry, every table entry has its closure scheduled under int(key) or the name, ids ascending and below the counter, the pickle well formed), hence no command runs for a dead instance or misses its entry; reload with events pending leaves the table unchanged and schedules exactly one entry per pending event. Both layers are tied to /repo by differential runs: seeded programs/operation sequences on the real Schedule object, and seeded command sequences (scheduler add/remind/remove/repeat/list, reload/unload/load Scheduler by an owner over IRC, restarts, clock advances) on a live bot with the virtual clock; the heap\'s choices are fed to the models, which check each is a minimum; the property statement is evaluated directly on the implementation (for the plugin: through the replies — every added, never removed command runs exactly once) to produce replays.',
+ 'level_text': 'Lean 4 theorems, kernel-checked, in two layers. (0) CPython heapq as used by the scheduler: heappush and heapify establish/keep the heap invariant, heappop returns an entry of minimal due time and leaves a heap that with it is a permutation of the old one, hence the choice of the heap is always a pick the scheduler model accepts. (1) A model of supybot.schedule.Schedule, for every sequence of addEvent/addPeriodicEvent/removeEvent/rescheduleEvent/run/reset calls and clock advances, every program of event functions that themselves add, remove, reschedule, add periodic events or raise while running, and every way the heap resolves ties: the name invariant (heap names = keys of events, no name twice) holds in every reachable state and therefore run() never raises; registrations = fired + removed + discarded + still scheduled as multisets with pairwise distinct registration ids (each event fires at most once, a removed event never fires, everything that fired was registered); nothing fires before its due time has passed, each iteration fires an entry of minimal due time, and when run() returns nothing due is left; a fired event carries the function and arguments of its registration, also after rescheduleEvent (repaired: it dropped them), which moves exactly that entry; a raising function ends only its own body; a periodic wrapper with occurrences left re-registers itself whether or not its function raised; threads: the placement of the lock is extracted and for every interleaving of critical sections (addEvent, removeEvent, iterations of run(), reset, by any threads) the invariant holds at every lock release, run() never raises and never fires early, registrations stay exactly-once (after three repairs of the lock placement). The driver loop: drivers.run() removes a driver whose run() raises; over every history of API calls and rounds of drivers.run() the Schedule driver is never removed and each round leaves nothing due. (2) A model of the Scheduler plugin on top (event table with its str(id)/name keys and the int-vs-str naming discipline, add/remind/remove/repeat/list, _flush and the pickle, die — repaired: it now takes the saved events out of the schedule —, _restoreEvents with kept ids and the already-scheduled test, load/unload/reload/restart, other plugins scheduling, run): an invariant of every reachable state and the whole-history law added = ran + removed + pending, each added never removed one-shot command runs exactly once (every scheduled closure belongs to the live instance and has its table entry, every table entry has its closure scheduled under int(key) or the name, ids ascending and below the counter, the pickle well formed), hence no command runs for a dead instance or misses its entry; reload with events pending leaves the table unchanged and schedules exactly one entry per pending event. The id discipline is explicit: integer names and table ids are below schedule.counter in every reachable state, also right after _restoreEvents in a fresh process, hence an anonymous schedule.addEvent by any component never fails (ids_below_counter, anonymous_add_never_fails). The heap model also directs the search: HeapShapes.lean enumerates every insertion order of up to 8 distinct due times and removed position on which a removeEvent that restores the heap downwards only would break it; all of them (a seeded sample in the quick tier), and larger random heaps of that kind, are replayed on the real scheduler (removeEvent and rescheduleEvent) under the due-time-order oracle. Event functions raise exceptions of many kinds (OSError with an errno, KeyError(5), no / None / bytes / non-string arguments, multi-line and %-laden messages) with the production logging path running. Both layers are tied to /repo by differential runs: seeded programs/operation sequences on the real Schedule object, and seeded command sequences (scheduler add/remind/remove/repeat/list, reload/unload/load Scheduler by an owner over IRC, restarts, clock advances) on a live bot with the virtual clock; the heap\'s choices are fed to the models, which check each is a minimum; the property statement is evaluated directly on the implementation (for the plugin: through the replies — every added, never removed command runs exactly once) to produce replays.',
  'level_note': 'Trusted: Lean kernel; axioms propext/Classical.choice/Quot.sound only; heapq is modelled (Heap.lean: heappush/heappop/heapify with _siftdown/_siftup in swap form, equal list after every call to the hole-moving reference code and to the C module the bot uses — compared on every run) and proved to keep the heap invariant and to pop a minimum, so the picks fed to the scheduler model are valid by theorem (heap_choice_is_valid_pick) and additionally checked per pop; str(int)/int(str) round trip for event ids (keys are modelled as Key.id n / Key.name s); the plugin model works on the abstract schedule justified by name_invariant (heap and events dict merged); the correspondence harnesses (generator quality bounds what they see); integer-valued virtual clock frozen during run(). Modelled: schedule.py completely except the lock; plugins/Scheduler/plugin.py: add, remind (as add), remove, repeat (--delay), list, _flush, die, _restoreEvents (incl. _getNextRunIn), the command/periodic closures with the instance that made them. Not modelled: unreadable or foreign pickles, old-format pickles without first_run/network, the text of the commands being replayed (C13/C14), non-Exception exceptions, event functions calling addPeriodicEvent(now=True) from inside a running event.',
  'technique': 'Lean 4 proof (induction over operation sequences and heap choices with invariants) + differential correspondence',
  'design_ref': 'DESIGN.md §6 C18',
@@ -25,7 +25,8 @@ THEOREMS = ['C18.name_invariant', 'C18.run_never_raises', 'C18.conservation', 'C
             'C18.reload_keeps_events', 'C18.reload_each_exactly_once', 'C18.load_restores_invariant',
             'C18.lock_placement_ok', 'C18.threads_safe', 'C18.plugin_conservation', 'C18.plugin_exactly_once',
             'C18.heap_push_ok', 'C18.heap_heapify_ok', 'C18.heap_pop_ok', 'C18.heap_choice_is_valid_pick',
-            'C18.schedule_driver_stays', 'C18.drivers_round_completes']
+            'C18.schedule_driver_stays', 'C18.drivers_round_completes',
+            'C18.ids_below_counter', 'C18.anonymous_add_never_fails']
 TRUSTED = ['Lean 4.33.0 kernel; axioms ⊆ {propext, Classical.choice, Quot.sound}',
            'CPython heapq.heappop returns an entry with minimal due time (mytuple compares due times only); checked on every pop of the run',
            'harness/c18.py generators, instrumentation (virtual clock, recording heapq proxy, recording addEvent/removeEvent wrappers, instrumented event functions), canonicalisation; hex line protocol']
@@ -34,7 +35,7 @@ RULE = ('seeded programs of event functions (bodies that add / remove / reschedu
         'schedule.Schedule and on the Lean model (fed the heap\'s choices) and per-operation observations are diffed. '
         'non-trivial = at least one tag; distinct = distinct (program, ops).')
 ASSUMPTIONS = ['Python asserts enabled', 'integer-valued clock that does not advance inside run()',
-               'event functions raise only Exception subclasses', 'single-threaded use of the schedule']
+               'event functions raise only Exception subclasses (of any kind and with any arguments: the production logging path runs)', 'single-threaded use of the schedule']
 
 # ------------------------------------------------------------------------------------------
 # encodings shared with lean/LimnoriaModel/C18/Drive.lean
@@ -84,6 +85,14 @@ def env():
         # the live bot first (the registry must be opened before supybot.conf is imported)
         bot.full(plugins=('Owner', 'Misc', 'User', 'Utilities', 'Scheduler'))
         from supybot import schedule, drivers
+        # Schedule.run reports a raising event function with log.exception: let the production logging
+        # path run (records are formatted and go to the scratch log file), as in harness/c07.py
+        import logging
+        from supybot import conf as _conf, log as _log
+        logging.disable(logging.NOTSET)
+        _conf.supybot.log.stdout.setValue(False)
+        _conf.supybot.log.level.setValue('INFO')
+        assert _log.testing is False
         clk = Clock()
         clk.real = time.time; clk.virtual = lambda: float(clk.t)
         clk.real_sleep = time.sleep
@@ -95,6 +104,8 @@ class HeapProxy(object):
     def __init__(self, impl):
         import heapq
         self.h = heapq; self.impl = impl
+    def __getattr__(self, name):       # anything else of the module (heapq._siftup, …) is the real thing
+        return getattr(self.h, name)
     def heappush(self, heap, item):
         return self.h.heappush(heap, item)
     def heapify(self, heap):
@@ -103,6 +114,30 @@ class HeapProxy(object):
         item = self.h.heappop(heap)
         self.impl.on_pop(item, heap)
         return item
+
+class VtOddError(Exception):
+    """an exception whose arguments are not strings"""
+    def __init__(self):
+        Exception.__init__(self, {'code': 7}, ['x'], 3.5)
+
+def _missing():
+    os.stat('/nonexistent/directory/of/the/harness')
+
+# what event functions raise (only Exception subclasses: a BaseException is meant to end the process)
+RAISES = [('RuntimeError', lambda: RuntimeError('event function raises')),
+          ('OSError-errno', lambda: OSError(2, 'No such file or directory')),
+          ('KeyError-int', lambda: KeyError(5)),
+          ('Exception-noargs', lambda: Exception()),
+          ('Exception-None', lambda: Exception(None)),
+          ('Exception-bytes', lambda: Exception(b'x\xff')),
+          ('custom-nonstr-args', lambda: VtOddError()),
+          ('FileNotFoundError-real', _missing),
+          ('ValueError-multiline', lambda: ValueError('first line\nsecond line\n')),
+          ('UnicodeDecodeError', lambda: b'\xff'.decode('utf-8')),
+          ('Exception-empty-str', lambda: Exception('')),
+          ('AssertionError-tuple', lambda: AssertionError((1, 2))),
+          ('StopIteration', lambda: StopIteration()),
+          ('Exception-percent', lambda: Exception('100%s %d %r'))]
 
 class Reg(object):
     __slots__ = ('t', 'name', 'args', 'fn', 'state', 'n', 'fobj')
@@ -124,6 +159,7 @@ class Impl(object):
         self.pending_call = None
         self.in_resched = None
         self.pops = 0
+        self.nraise = sum(len(b) for b in P) * 7 + len(P)
         self.F = [self.make_fn(i) for i in range(len(P))]
         self.fn_idx = dict((id(f), i) for i, f in enumerate(self.F))
         self.saved_heapq = self.mod.heapq
@@ -174,7 +210,15 @@ class Impl(object):
             return S.addPeriodicEvent(self.F[act[1]], act[2], act[3], now=False, args=a, kwargs=kw, count=act[5])
         if k == 'raise':
             self.tags.add('body-raises')
-            raise RuntimeError('event function raises')
+            self.nraise += 1
+            kind, mk = RAISES[self.nraise % len(RAISES)]
+            self.tags.add('raises-' + kind)
+            try:
+                e = mk()
+            except Exception as e2:        # e.g. os.stat of a missing file: the real OSError
+                e = e2
+            e._vt = True
+            raise e
 
     def resched(self, name, t):
         old = self.regs.get(name)
@@ -398,12 +442,17 @@ def _do(self, op):
                     r.state = 'discarded'
                 self.regs.clear()
                 self.tags.add('reset')
-        except AssertionError:
-            ret = 'E:assertion'; self.tags.add('exc-assertion')
-        except KeyError:
-            ret = 'E:keyError'; self.tags.add('exc-keyerror')
-        except RuntimeError:
-            ret = 'E:raised'; self.tags.add('exc-raised')
+        except Exception as e:
+            if getattr(e, '_vt', False) or isinstance(e, RuntimeError):
+                ret = 'E:raised'; self.tags.add('exc-raised')
+            elif isinstance(e, AssertionError):
+                ret = 'E:assertion'; self.tags.add('exc-assertion')
+            elif isinstance(e, KeyError):
+                ret = 'E:keyError'; self.tags.add('exc-keyerror')
+            else:
+                ret = 'E:' + type(e).__name__
+                if not any(f[0] == self.opi for f in self.fails):
+                    self.fail('%s raised %s: %s' % (k, type(e).__name__, e))
     finally:
         self.on_registered = orig_on_registered
     self.check_recur()
@@ -596,9 +645,57 @@ def run_thread_case(ops, kind):
     finally:
         mod.heapq = saved
 
-def explore(stream, n, maxlen, corpus=(), budget=75.0, n_plugin=0, plugin_corpus=(), n_thread=0, thread_corpus=(), n_heap=0):
+def directed_heap_inputs(r, per_n, n_big):
+    """heap shapes computed from the Lean heap model (HeapShapes.lean: every insertion order of up to 8
+    distinct due times and removed position on which restoring the heap downwards only would break it),
+    plus larger random heaps with an interior entry removed whose replacement (the last entry) is smaller
+    than the parent of the hole.  -> list of (insertion order of due ranks, removed rank)"""
+    import heapq
+    req = ['hfragile\t%d\t%d\t%d' % (k, per_n.get(k, 0), r.randint(0, 10 ** 6)) for k in (6, 7, 8)]
+    shapes = []
+    for o in wire.run_driver(PROPERTY, req):
+        body = o.split('|', 1)[1]
+        for item in body.split(';'):
+            if item:
+                order, rem = item.split('/')
+                shapes.append(([int(x) for x in order.split(',')], int(rem)))
+    for _ in range(n_big):
+        k = r.randint(9, 40)
+        order = list(range(k)); r.shuffle(order)
+        h = []
+        for d in order: heapq.heappush(h, d)
+        cand = [i for i in range(1, k - 1) if h[-1] < h[(i - 1) >> 1]]
+        if cand:
+            shapes.append((order, h[r.choice(cand)]))
+    return shapes
+
+def directed_heap_ops(r, order, rem):
+    ops = [['new', 1000]]
+    for d in order:
+        ops.append(['add', 0, ('R', 1 + d), 'e%d' % d, []])
+    x = r.random()
+    if x < 0.6:
+        ops.append(['remove', 'e%d' % rem])
+    elif x < 0.8:
+        ops.append(['resched', 'e%d' % rem, ('R', 2 + len(order))])      # removeEvent + addEvent
+    else:
+        ops.append(['resched', 'e%d' % rem, ('R', 0)])
+    ops += [['tick', 3 + len(order)], ['run', 1] if r.random() < 0.5 else ['run']]
+    return [[]], ops
+
+def explore(stream, n, maxlen, corpus=(), budget=75.0, n_plugin=0, plugin_corpus=(), n_thread=0, thread_corpus=(), n_heap=0,
+            heap_directed=None):
     r = rng.make(stream)
     cases = []; lines = []; spans = []
+    if heap_directed is not None:
+        rd = rng.make(stream + '-heap-directed')
+        for order, rem in directed_heap_inputs(rd, heap_directed[0], heap_directed[1]):
+            P, ops = directed_heap_ops(rd, order, rem)
+            c, ml = run_case(P, ops, 'heap-directed')
+            spans.append((c, len(lines), len(ml), 1))
+            lines.extend(ml); cases.append(c)
+            if len([x for x in cases if x.oracle_ok is False]) >= 10:
+                break
     rh = rng.make(stream + '-heap')
     for i in range(n_heap):
         c, ml = run_heap_case(gen_heap_ops(rh), 'heap')
@@ -818,7 +915,8 @@ def run(ctx):
     cases, lines, spans = explore('c18', n, maxlen, load_corpus(), budget=(600.0 if ctx.thorough else 60.0),
                                   n_plugin=(2500 if ctx.thorough else 220), plugin_corpus=load_plugin_corpus(),
                                   n_thread=(20000 if ctx.thorough else 1500), thread_corpus=load_thread_corpus(),
-                                  n_heap=(20000 if ctx.thorough else 1500))
+                                  n_heap=(20000 if ctx.thorough else 1500),
+                                  heap_directed=(({6: 0, 7: 0, 8: 0}, 3000) if ctx.thorough else ({6: 0, 7: 400, 8: 250}, 150)))
     if build.driver_ok:
         fill_model(cases, lines, spans)
     for i, c in enumerate(cases):
